@@ -1,7 +1,7 @@
 (* C01 - Opening a well-formed KDBX4 file yields exactly the stored content.
    Statements only.  Model: format/Kdbx4.v (container framing, parametric in the primitives). *)
 From Coq Require Import Permutation.
-From KP Require Import Bytes Outcome LE Version Kdbx4 Kdbx4Facts Kdbx4Proofs.
+From KP Require Import Bytes Outcome LE Version Kdbx4 Kdbx4Facts Kdbx4Proofs Kdbx4Conform.
 Local Open Scope N_scope.
 
 (* the framing round trip: for ALL primitives satisfying the two inverse laws and the two length
@@ -93,3 +93,61 @@ Theorem c01_layout_variants_read_alike :
   (forall X, p_keepass gunzip (length (d' ++ X)) (d' ++ X) ks
              = Ok (c, X, LE.drop (total_length (protected_values_in_order c)) ks)).
 Proof. exact layout_variant_roundtrip. Qed.
+
+(* ---- ANY conforming writer (format/Kdbx4Conform.v) ------------------------------------------- *)
+(* every partition of the ciphertext into non-empty blocks, closed by the empty block, with ignored
+   bytes after it, is read back *)
+Theorem c01_any_block_partition :
+  forall (sha512 : bytes -> bytes) (hmac256 : bytes -> bytes -> bytes),
+  (forall k m : bytes, length (hmac256 k m) = 32%nat) ->
+  forall (ct : bytes) (blocks : list bytes) (key rest : bytes),
+  concat blocks = ct -> Forall Kdbx4Conform.block_ok4 blocks ->
+  read_blocks sha512 hmac256
+    (S (length (Kdbx4Conform.write_blocks_multi sha512 hmac256 0 key blocks ++ rest))) 0
+    (Kdbx4Conform.write_blocks_multi sha512 hmac256 0 key blocks ++ rest) key [] = Ok ct.
+Proof. exact read_blocks_any_partition. Qed.
+
+(* the outer header in any order of its five mandatory fields, with comment fields anywhere, any
+   content of the end field, the KDF dictionary in any order *)
+Theorem c01_outer_header_any_order :
+  forall (minor : N) (h : outer_header) (vd : vdict) (fields : list (N * bytes)) (end_buf body : bytes),
+  minor < 2 ^ 16 -> Kdbx4Conform.header4_ok h vd -> Kdbx4Conform.short32 end_buf ->
+  Forall (fun f : N * bytes => fst f = 1 -> Kdbx4Conform.short32 (snd f)) fields ->
+  Permutation (filter Kdbx4Conform.non_comment4 fields) (Kdbx4Conform.canonical_ofields h vd) ->
+  parse_outer_header (Kdbx4Conform.header_dump4 minor fields end_buf ++ body)
+  = Ok (KDB4 minor, h, length (Kdbx4Conform.header_dump4 minor fields end_buf)).
+Proof. exact parse_outer_header_permuted. Qed.
+
+(* the inner header with stream id, stream key and attachments interleaved in any way that keeps the
+   attachments' relative order *)
+Theorem c01_inner_header_any_order :
+  forall (c : icipher) (key : bytes) (atts : list attachment) (fields : list (N * bytes)) (end_buf xml : bytes),
+  Kdbx4Conform.short32 key -> atts_ok atts = true -> Kdbx4Conform.short32 end_buf ->
+  Kdbx4Conform.interleaved_ifields c key atts fields ->
+  parse_inner_header (Kdbx4Conform.inner_dump4 fields end_buf ++ xml) = Ok (atts, c, key, xml).
+Proof. exact parse_inner_header_permuted. Qed.
+
+(* the whole reader on the file of any conforming writer: any layout of both headers, any cut of the
+   ciphertext into blocks, trailing bytes *)
+Theorem c01_conforming_file_roundtrip :
+  forall (sha256 sha512 : bytes -> bytes) (hmac256 : bytes -> bytes -> bytes)
+         (kdf : kdfcfg -> bytes -> bytes -> Kdbx4.res bytes)
+         (outer_enc outer_dec : ocipher -> bytes -> bytes -> bytes -> Kdbx4.res bytes)
+         (compress decompress : compression -> bytes -> Kdbx4.res bytes),
+  (forall c key iv p ct, outer_enc c key iv p = Ok ct -> outer_dec c key iv ct = Ok p) ->
+  (forall z p c, compress z p = Ok c -> decompress z c = Ok p) ->
+  (forall m, length (sha256 m) = 32%nat) ->
+  (forall k m, length (hmac256 k m) = 32%nat) ->
+  forall (minor : N) (h : outer_header) (vd : vdict) (ic : icipher) (key : bytes) (atts : list attachment)
+         (L : Kdbx4Conform.layout4) (els : Kdbx4.res (list bytes)) (xml file : bytes),
+  minor < 2 ^ 16 ->
+  Kdbx4Conform.conforming_layout4 h vd ic key atts L ->
+  (forall k p ct,
+     compress (h_compression h) (Kdbx4Conform.inner_dump4 (Kdbx4Conform.l_ifields L) (Kdbx4Conform.l_iend L) ++ xml) = Ok p ->
+     outer_enc (h_cipher h) k (h_iv h) p = Ok ct ->
+     concat (Kdbx4Conform.l_cut L ct) = ct /\ Forall Kdbx4Conform.block_ok4 (Kdbx4Conform.l_cut L ct)) ->
+  Kdbx4Conform.write_conforming4 sha256 sha512 hmac256 kdf outer_enc compress minor h L els xml = Ok file ->
+  decrypt4 sha256 sha512 hmac256 kdf outer_dec decompress file els
+  = Ok ({| c_version := KDB4 minor; c_outer := h_cipher h; c_compression := h_compression h;
+           c_inner := ic; c_kdf := h_kdf h |}, atts, key, xml).
+Proof. exact frame_roundtrip_conforming. Qed.
